@@ -90,10 +90,11 @@ PROPS["C11"] = {
 }
 
 PROPS["C31"] = {
+    "standin": ["standin_value_laws"],
     "verus": ["order_lemmas"],
     "kani": ["value"],
     "level": "proof",
-    "level_text": "Kani/CBMC harnesses over the real Eq/Ord/Hash impls of Value and Tuple: per value kind (concrete discriminant, fully symbolic payload) the binary laws cmp==Equal<=>==, antisymmetry, ==⇒equal hash feed, and transitivity over symbolic triples; cross-kind order shown payload-independent and the 9x9 kind table a strict total order; a Verus meta-lemma lifts these to 'total order on all values' and lexicographically to tuples. Complete (full bit-vector domain) for Null/Bool/Int32/Int64/Float64/Timestamp; strings, vectors and tuples are BOUNDED (payload length <= 1, thorough <= 2) and not counted as proved.",
+    "level_text": "Kani/CBMC harnesses over the real Eq/Ord/Hash impls of Value and Tuple: per value kind (concrete discriminant, fully symbolic payload) the binary laws cmp==Equal<=>==, antisymmetry, ==⇒equal hash feed, and transitivity over symbolic triples; cross-kind order shown payload-independent and the 9x9 kind table a strict total order; a Verus meta-lemma lifts these to 'total order on all values' and lexicographically to tuples. Complete (full bit-vector domain) for Null/Bool/Int32/Int64/Float64/Timestamp; strings, vectors and tuples are BOUNDED (payload length <= 1, thorough <= 2) and not counted as proved. BOUNDED stand-in for longer payloads (not counted as proved): all pairs and triples of ~85 representative values incl. strings up to 41 chars and vectors up to 33 elements that differ only late, and ~100 tuples.",
     "level_note": "trusted: Kani 0.68 + CBMC 6.11; std's str/slice Ord, Eq, Hash and Arc deref; Hash observed as the byte sequence fed to the Hasher (SipHash itself not executed); heap kinds bounded",
     "technique": "Kani proof harnesses injected as a child module of src/value/mod.rs in a scratch copy (insert-only), full-domain symbolic scalars with concrete enum kinds; Verus meta-lemma for the ordinal-sum / lexicographic lifting",
     "aux_failure": "violation",
